@@ -427,6 +427,20 @@ func TestVF_C04(t *testing.T) {
 		c := c04Case{Suite: rapid.SampledFrom(vfSuites).Draw(t, "suite"), Resumed: rapid.Bool().Draw(t, "resumed"),
 			ClientAuth: rapid.Bool().Draw(t, "auth"), RecordKA: rapid.Bool().Draw(t, "recka"),
 			Up: rapid.SliceOfN(sizeGen, 1, 4).Draw(t, "up"), Down: rapid.SliceOfN(sizeGen, 1, 4).Draw(t, "down")}
+		// one case in eight sends more than 256 (and more than 65536/… is out of reach) records in one
+		// direction, so that the sequence number's carry into the second byte is exercised
+		if rapid.IntRange(0, 7).Draw(t, "many") == 0 {
+			n := rapid.IntRange(257, 700).Draw(t, "nmany")
+			many := make([]int, n)
+			for i := range many {
+				many[i] = 1 + i%3
+			}
+			if rapid.Bool().Draw(t, "manydir") {
+				c.Up = append(c.Up, many...)
+			} else {
+				c.Down = append(c.Down, many...)
+			}
+		}
 		sig, msg, nt := c04Run(c)
 		if sig != "" {
 			rec.Fail(t, sig, c, "%s", msg)
@@ -435,7 +449,17 @@ func TestVF_C04(t *testing.T) {
 		if c.Resumed {
 			mode = "resumed"
 		}
-		rec.Eval(nt, c, fmt.Sprintf("suite:%04x", c.Suite), mode)
+		if len(c.Up) > 256 || len(c.Down) > 256 {
+			mode += "+more-than-256-records"
+		}
+		sample := c
+		if len(sample.Up) > 8 {
+			sample.Up = append(append([]int(nil), sample.Up[:8]...), -len(c.Up))
+		}
+		if len(sample.Down) > 8 {
+			sample.Down = append(append([]int(nil), sample.Down[:8]...), -len(c.Down))
+		}
+		rec.EvalHash(nt, vfHash(c), func() interface{} { return sample }, fmt.Sprintf("suite:%04x", c.Suite), mode)
 	})
 }
 
